@@ -389,8 +389,14 @@ def compute_gradient_and_dynamics(
             current_node, current_edges = _apply_system_superoperator(
                 current_node, current_edges, second_half_prop.T)
 
-            current_node, current_edges = _apply_pt_mpos(
-                current_node, current_edges, pt_mpos)
+            # the transposed MPOs act in the reverse order of the forward pass
+            for i in reversed(range(len(pt_mpos))):
+                single_pt_mpo = [None] * len(pt_mpos)
+                single_pt_mpo[i] = pt_mpos[i]
+                current_node, current_edges = _apply_pt_mpos(
+                    current_node, current_edges, single_pt_mpo)
+            # keep the axes of the node in the order of the edge list
+            current_node.reorder_edges(current_edges)
 
             current_node, current_edges = _apply_system_superoperator(
                 current_node, current_edges, first_half_prop.T)
